@@ -291,11 +291,17 @@ class Nullness(object):
         ptr = [i for i, p in enumerate(g.params) if g.unit.types[p["t"]].get("ptr")]
         if not ptr:
             return ()
-        fl = NullFlow(g, set(pdids[i] for i in ptr), self.requires, params_maybe=[pdids[i] for i in ptr])
+        # path-sensitive, like the analysis of the callers: a parameter used only under a condition that the callee itself
+        # correlates with its NULL test (type == INFO && !name -> error ... case INFO: strdup(name)) is not required non-NULL
         try:
+            fl = NullFlowPS(g, set(pdids[i] for i in ptr), self.requires, params_maybe=[pdids[i] for i in ptr])
             fl.run()
         except AnalysisBroken:
-            return ()
+            try:
+                fl = NullFlow(g, set(pdids[i] for i in ptr), self.requires, params_maybe=[pdids[i] for i in ptr])
+                fl.run()
+            except AnalysisBroken:
+                return ()
         bad = set()
         names = {p["n"]: i for i, p in enumerate(g.params)}
         for c, (ok, detail, loc) in fl.uses.items():
